@@ -61,32 +61,44 @@ Definition sig (s : list N) : sx := SL [SB [115; 105; 103]; SB s].
 Definition sig_dependents : list N :=
   [108;105;115;116;105;110;103;45;110;97;109;101;45;101;110;116;114;121;45;104;97;115;45;100;101;112;101;110;100;101;110;116;115].
 
-(* kind 1901: input = (srcView priorView ((path sel)...) selDefault cap merge);
+(* kind 1901: input = (srcView priorView ((path sel)...) selDefault cap merge [rwk]);
+   rwk (absent = 0) = what the selector writes into the stat it is handed (MetaOnly.rw_of);
    impl = (send_err recv_err hung announced lkind lok listing reclens lsize reqs fwd dest_raw sentinel_ok).
    Model observables: acceptance by the receiver's validators, listing, requested ids, forwarded paths,
-   all from the extracted [meta_recv] run on the ANNOUNCED sequence (plus the C11 model of the
+   all from the extracted [meta_recv_rw] run on the ANNOUNCED sequence (plus the C11 model of the
    sender's hard-link reset for the announced sequence itself).
-   Specification oracle (on the implementation's observables only): the statement of C19. *)
+   Specification oracle (on the implementation's observables only): the statement of C19 — the
+   listing is the announced sequence (whatever the selector writes), everything else is about
+   the sequence as the selector left it ([seen]).  A hang of the real Send/Receive (watchdog of
+   the harness) is specification-false in EVERY case, judged or not.
+   A selection that forwards a hard link without its source (not link-closed) must be REJECTED
+   (receive.go shows the hard-link validator only the forwarded entries): Receive returns an
+   error, and whatever the diff/writer was handed by then was caused by the entries before the
+   rejected one ([applied]) — clause 10. *)
 Definition run_1901 (input impl : sx) : sx :=
   match input, impl with
-  | SL [sv; pv; tab; def; _; mg],
+  | SL (sv :: pv :: tab :: def :: _ :: mg :: rwx),
     SL [SN se; SN re; SN hung; ann; SN lkind; lok; lst; lens; SN lsize; rq; fw; dr; sok] =>
     let r :=
+      rwk <- match rwx with [] => Some 0 | [SN k] => Some k | _ => None end ;;
       src <- dec_view sv ;; prior <- dec_view pv ;; table <- sx_list dec_tab_entry tab ;;
       d <- sx_bool def ;; merge <- sx_bool mg ;; announced <- sx_list dec_stat ann ;;
       lok' <- sx_bool lok ;; listing <- sx_list dec_stat lst ;; lens' <- sx_list sx_N lens ;;
       reqs <- sx_list sx_N rq ;; fwd <- sx_list dec_run fw ;; dest <- sx_list dec_raw dr ;;
       sentinel_ok <- sx_bool sok ;;
       let sel := fun s : stat => tab_lookup (st_path s) table d in
+      let rwf := fun s : stat => rw_of rwk (sel s) s in
+      let annS := map (seen rwf) announced in       (* the sequence as the selector leaves it *)
       let srcE := walk_root src in
       let priorAll := walk_root prior in
       let priorE := filter (fun e => negb (is_listing_path (st_path (fst e)))) priorAll in
       let success := N.eqb se 0 && N.eqb re 0 && N.eqb hung 0 in
       let rs := recv_stream announced in
+      let rsS := recv_stream annS in
       let sender_ok := valid_stream_b announced
                        && match hardlink_check announced with None => true | Some _ => false end in
-      let closed := link_closed sel rs in
-      let needed_l := filter (needed sel rs) rs in
+      let closed := link_closed sel rsS in
+      let needed_l := filter (needed sel rsS) rsS in
       let proj : list entry := map (fun s => (storable_xattrs s, content_of srcE (st_path s))) needed_l in
       let need_content := fun s : stat =>
         merge || match find_entry (st_path s) priorE with
@@ -94,7 +106,8 @@ Definition run_1901 (input impl : sx) : sx :=
                  | None => true end in
       (* ---- specification, evaluated on what the implementation did ---- *)
       let spec_reqs := map N.of_nat
-        (positions_from 0 (fun s => selected_regular sel s && negb (has_link s) && need_content s) announced) in
+        (positions_from 0 (fun s => selected_regular sel s && negb (has_link s) && need_content s) annS) in
+      let c_nohang := N.eqb hung 0 in
       let c_success := success in
       let c_file := N.eqb lkind 1 && lok' in
       let c_listing := stats_eqb listing rs in
@@ -109,13 +122,18 @@ Definition run_1901 (input impl : sx) : sx :=
       (* observation, outside the statement (merge mode): a non-empty directory at the listing path
          survives a merge, the epilogue cannot replace it and Receive returns an error: not judged *)
       let merge_dir := merge && existsb (fun e => under listing_name (st_path (fst e))) priorAll in
-      let judged := sender_ok && closed && (merge || identity_faithful priorE proj) && negb merge_dir in
-      let holds := negb judged
-                   || (c_success && c_file && c_listing && c_framing && c_reqs && c_fwd && c_conv && c_sentinel) in
+      let judged := sender_ok && negb merge_dir && (negb closed || merge || identity_faithful priorE proj) in
+      let applied_paths := map st_path (applied sel rsS) in
+      let c_rejected := negb (N.eqb re 0)
+                        && forallb (fun x => existsb (bytes_eqb (fst x)) applied_paths) fwd && c_sentinel in
+      let holds := c_nohang && (negb judged
+                   || (if closed
+                       then c_success && c_file && c_listing && c_framing && c_reqs && c_fwd && c_conv && c_sentinel
+                       else c_rejected)) in
       (* ---- model ---- *)
-      let m := meta_recv sel announced in
-      let acc := recv_accepts announced in
-      let model_reqs := filter (fun i => match nth_error announced i with
+      let m := meta_recv_rw sel rwf announced in
+      let acc := recv_accepts_rw sel rwf announced in
+      let model_reqs := filter (fun i => match nth_error annS i with
                                          | Some s => negb (has_link s) && need_content s
                                          | None => false end) (map snd (r_files m)) in
       let sender_model := stats_eqb (hardlink_reset (map fst srcE)) announced in
@@ -129,12 +147,15 @@ Definition run_1901 (input impl : sx) : sx :=
         else SL [of_bool sender_model; SN 0] in
       let deps := listing_dependents announced in
       let info :=
-        SL (clause 1 c_success ++ clause 2 c_file ++ clause 3 c_listing ++ clause 4 c_framing
-            ++ clause 5 c_reqs ++ clause 6 c_fwd ++ clause 7 c_conv ++ clause 8 c_sentinel
-            ++ (if c_success && negb c_conv then converged_diag merge priorE proj dest else [])
+        SL (clause 9 c_nohang
+            ++ (if closed
+                then clause 1 c_success ++ clause 2 c_file ++ clause 3 c_listing ++ clause 4 c_framing
+                     ++ clause 5 c_reqs ++ clause 6 c_fwd ++ clause 7 c_conv ++ clause 8 c_sentinel
+                     ++ (if c_success && negb c_conv then converged_diag merge priorE proj dest else [])
+                else clause 10 c_rejected)
             ++ (if deps && negb success then [sig sig_dependents] else [])) in
       Some (if judged then verdict model_obs impl_obs holds info
-            else verdict impl_obs impl_obs true (SL []))
+            else verdict impl_obs impl_obs c_nohang (SL (clause 9 c_nohang)))
     in match r with Some v => v | None => v_malformed end
   | _, _ => v_malformed
   end.
